@@ -20,8 +20,12 @@ it is connected with the program the code generator emits for that graph (C04), 
   and exactly the keyword names `axis` (reduce) followed by the forwarded options.
 * `adapter_called_at_most_once_compiled`: without the reachability premise, at most one.
 
-Not proved here: that the function term of the event evaluates to the user function (the event is identified by the node that
-produced it); that the positional arguments evaluate to the aligned tensors (their *traced shapes* are in `adaptOK_sound`).
+* `adapter_call_value_compiled` (value level): under the same premises and reachability, the event trace of the emitted program
+  contains exactly one call event whose *function term is a constant object* (`constAtom n`; the graph has exactly one `Constant`
+  node, the user function), with the specification's number of positional arguments and keyword names; no other call event calls
+  a constant object.
+
+Not proved here: that the positional arguments evaluate to the aligned tensors (their *traced shapes* are in `adaptOK_sound`).
 -/
 namespace Einx.Adapt
 open Einx.Compile Einx.Exec
